@@ -45,12 +45,13 @@ Definition wide_str (buf : list N) : outcome (list N * nat) :=
   else Ok (decode_utf16le (firstn (2 * N.to_nat len) (skipn 4 buf)), (4 + 2 * N.to_nat len)%nat).
 
 (* match read_i32(&xti[4..8]) { -2 => "#ThisWorkbook", -1 => "#InvalidWorkSheet",
-     p if p >= 0 && (p as usize) < sheets.len() => &sheets[p].0, _ => "#Unknown" } *)
+     p if p >= 0 && (p as usize) < sheets.len() => quote_sheet_name(&sheets[p].0), _ => "#Unknown" }
+   (the sheet name as formula text writes it: commit "fix: sheet names that need quotes …") *)
 Definition resolve_xti (sheets : list (list N)) (first_raw : N) : list N :=
   if first_raw =? 4294967294 then lit "#ThisWorkbook"
   else if first_raw =? 4294967295 then lit "#InvalidWorkSheet"
   else if first_raw <? 2147483648 then
-    match nthN sheets first_raw with Some s => s | None => lit "#Unknown" end
+    match nthN sheets first_raw with Some s => quote_sheet_name s | None => lit "#Unknown" end
   else lit "#Unknown".
 
 (* check_len("BrtExternSheet", len, 4)?;
@@ -299,11 +300,13 @@ Fixpoint map_o (A B : Type) (f : A -> outcome B) (l : list A) : outcome (list B)
   | x :: t => do y <- f x; do r <- map_o f t; Ok (y :: r)
   end.
 
-(* (metadata.names, xtis) of Xls::parse_workbook *)
+(* (metadata.names, xtis) of Xls::parse_workbook; [sheets] are the BoundSheet8 names:
+     let fmla_sheet_names = sheet_names.iter().map(|(_, n)| quote_sheet_name(n)).collect()
+   is what the decoder and the first-token fallback index *)
 Definition xls_read_names (sheets : list (list N)) (recs : list record)
   : outcome (list (list N * list N) * list (N * N * N)) :=
   do g <- xls_globals recs [] [];
-  do l <- map_o (xls_final_name sheets (snd g) (map fst (fst g))) (fst g);
+  do l <- map_o (xls_final_name (map quote_sheet_name sheets) (snd g) (map fst (fst g))) (fst g);
   Ok (l, snd g).
 End XlsNames.
 
